@@ -30,7 +30,7 @@ def handleFit (fs : List (String × String)) : String :=
           let ccx := f64Clamp cx 0 1
           let ccy := f64Clamp cy 0 1
           if cropCheck floatOps sw sh l t w h ≠ 0 ∨ ¬ (w > 0) ∨ ¬ (h > 0) then some s!"crop box ({l},{t},{w},{h}) is not inside {sw}x{sh}"
-          else if resize != "ok" ∧ resize != "skip" then some s!"resize with fit_into_destination failed: {resize}"
+          else if resize != "ok" ∧ resize != "skip" then some s!"resize with fit_into_destination: {resize}"
           else if ¬ relClose (w / h) (Float.ofNat dw / Float.ofNat dh) 1e-14 then some s!"aspect {w / h} instead of {Float.ofNat dw / Float.ofNat dh}"
           else if ¬ (w == fsw ∨ h == fsh) then some "the box spans neither dimension of the source"
           else if ¬ relClose l ((fsw - w) * ccx) 1e-14 ∨ ¬ relClose t ((fsh - h) * ccy) 1e-14 then some s!"centering: left={l} top={t}"
